@@ -135,7 +135,10 @@ func (g *Gen) builtin(v ssa.Value, b *ssa.Builtin, args []ssa.Value, st *State) 
 		case *types.Pointer:
 			t = fmt.Sprint(types.Unalias(x.Elem()).Underlying().(*types.Array).Len())
 		case *types.Map:
+			// len(m) = cardinality of the key set (built-in model, see MapCard)
+			md, _ := g.u.MapComps(x)
 			r := g.fresh("maplen", "Int")
+			g.assert(fmt.Sprintf("(= %s %s)", r, g.u.MapCard(g.u.SortOf(x.Key()), fmt.Sprintf("(select %s %s)", g.read(st, md), g.val(a)))))
 			g.assert(fmt.Sprintf("(<= 0 %s)", r))
 			t = r
 		case *types.Chan:
@@ -221,6 +224,13 @@ func (g *Gen) appendBuiltin(v ssa.Value, args []ssa.Value, st *State) *State {
 		roff, s, row, oldrow, newlen, trow, toff, inplace))
 	nm := g.fresh("app.mem", g.u.compSort[k])
 	g.assert(fmt.Sprintf("(= %s (ite (= %s 0) %s (store %s (s.base %s) %s)))", nm, newlen, mem, mem, res, row))
+	if es == "Int" && typeKey(et) == "uint8" {
+		// byte strings: the result holds the concatenation (a consequence of
+		// the element-wise facts above by extensionality, stated so that
+		// contracts over whole byte strings need no pointwise reasoning)
+		g.assert(fmt.Sprintf("(= (mk.bytes %[1]s (win (select %[2]s (s.base %[3]s)) (s.off %[3]s) %[1]s)) (b.cat (mk.bytes (s.len %[4]s) (win %[5]s (s.off %[4]s) (s.len %[4]s))) (mk.bytes %[6]s (win %[7]s %[8]s %[6]s))))",
+			newlen, nm, res, s, oldrow, tlen, trow, toff))
+	}
 	g.define(v, res)
 	return g.update(st2, k, nm)
 }
@@ -337,13 +347,29 @@ func (g *Gen) lookup(x *ssa.Lookup, st *State) {
 
 // rangeInit / rangeNext: iteration over a map visits an arbitrary not yet
 // visited key each time (ghost set "seen", kept as a loop-carried ghost).
-func (g *Gen) rangeInit(x *ssa.Range, st *State) {
+func (g *Gen) rangeInit(x *ssa.Range, st *State) *State {
 	switch t := types.Unalias(x.X.Type()).Underlying().(type) {
 	case *types.Map:
 		g.rangeSt[x] = &rangeState{mapRef: g.val(x.X), mapType: t}
+		// nothing has been visited yet
+		ks := g.u.SortOf(t.Key())
+		return g.update(st, g.seenComp(x, ks), "((as const (Array "+ks+" Bool)) false)")
 	default:
 		g.rangeSt[x] = &rangeState{str: true}
 	}
+	return st
+}
+
+// mapDom: the key set of map m. The nil map has no keys: every version of a
+// key-set component satisfies MD[0] = empty (compWF), so no case split is needed.
+func (g *Gen) mapDom(st *State, mt *types.Map, m Term) Term {
+	md, _ := g.u.MapComps(mt)
+	return fmt.Sprintf("(select %s %s)", g.read(st, md), m)
+}
+
+// seenComp: the ghost set of keys already visited by the map iteration it.
+func (g *Gen) seenComp(it ssa.Value, keySort string) string {
+	return g.u.GhostComp(fmt.Sprintf("$seen.%s", it.Name()), "(Array "+keySort+" Bool)")
 }
 
 func (g *Gen) rangeNext(x *ssa.Next, st *State) *State {
@@ -357,22 +383,22 @@ func (g *Gen) rangeNext(x *ssa.Next, st *State) *State {
 		return st
 	}
 	mt := rs.mapType
-	md, mv := g.u.MapComps(mt)
+	mdKey, mv := g.u.MapComps(mt)
 	ks := g.u.SortOf(mt.Key())
-	seenKey := g.u.GhostComp(fmt.Sprintf("$seen.%s", x.Iter.Name()), "(Array "+ks+" Bool)")
+	seenKey := g.seenComp(x.Iter, ks)
 	seen := g.read(st, seenKey)
 	ok := g.fresh("next.ok", "Bool")
 	k := g.fresh("next.k", ks)
 	v := g.fresh("next.v", g.u.SortOf(mt.Elem()))
-	dom := fmt.Sprintf("(select %s %s)", g.read(st, md), rs.mapRef)
+	dom := g.mapDom(st, mt, rs.mapRef)
 	g.assert(g.u.rangeFact(k, mt.Key(), g.top(st)))
 	g.assert(g.u.rangeFact(v, mt.Elem(), g.top(st)))
 	// ok: k is an unvisited key of the map; !ok: every key has been visited
 	g.assert(fmt.Sprintf("(=> %s (and (select %s %s) (not (select %s %s)) (= %s (select (select %s %s) %s))))",
 		ok, dom, k, seen, k, v, g.read(st, mv), rs.mapRef, k))
 	qk := "k!n"
-	g.assert(fmt.Sprintf("(=> (not %s) (forall ((%s %s)) (! (=> (select %s %s) (select %s %s)) :pattern ((select %s %s)))))",
-		ok, qk, ks, dom, qk, seen, qk, dom, qk))
+	g.assert(fmt.Sprintf("(=> (not %s) (forall ((%s %s)) (! (=> (select %s %s) (select %s %s)) :pattern ((select (select %s %s) %s)))))",
+		ok, qk, ks, dom, qk, seen, qk, g.read(st, mdKey), rs.mapRef, qk))
 	g.tuples[x] = []Term{ok, k, v}
 	return g.update(st, seenKey, fmt.Sprintf("(ite %s (store %s %s true) %s)", ok, seen, k, seen))
 }
